@@ -266,7 +266,9 @@ IMMUT_SHAPES = ['date >= "2024-01-05" and month == 9001', '"2024-03-10" < date <
                 'regex_replace(description, "a", "@P1") == "x"', 'sum(r.amount for r in orders) > 9001', 'field.k == "@P1"', 'next((r for r in orders), 0) == 0',
                 'any(r.missing == "@P1" for r in orders) or amount > 9001', 'orders[0].nope == 9001 or orders[1].__class__ == 1', 'exists(orders[0].ghost) or contains("@P1")',
                 'len(sum(([q for q in orders if q.amount == r.amount] for r in orders), orders)) >= 9001', 'len(sum(([q for q in orders] for r in orders if r.amount > 9001), orders)) == 2 or contains("@P1")',
-                'sum((r.amount for r in orders), 9001) > 0 and len(orders) == 2']
+                'sum((r.amount for r in orders), 9001) > 0 and len(orders) == 2',
+                'len(sum(([q for q in orders if q.amount == r.amount] for r in orders if r.amount > 9001), extras)) >= 1 or contains("@P1")',
+                'len(sum(([q for q in orders] for r in orders), extras)) == 5 and len(extras) == 1']
 
 
 def immutability(i, kind='date'):
@@ -285,7 +287,8 @@ def immutability(i, kind='date'):
         tree = inject(src, {'@P1': s1, 9001: n1})
         snap = [(n, type(n), [(f, getattr(n, f, None)) for f in n._fields]) for n in ast.walk(tree)]
         field = {'k': 'kv'}
-        rows = {'orders': [{'amount': 5, 'item': 'x', 'when': date(2024, 2, 3)}, {'amount': 9, 'item': 'y', 'when': '2024-02-03'}]}
+        rows = {'orders': [{'amount': 5, 'item': 'x', 'when': date(2024, 2, 3)}, {'amount': 9, 'item': 'y', 'when': '2024-02-03'}],
+                'extras': [{'amount': 1, 'item': 'z', 'when': None}]}
         txn = {'description': desc, 'amount': amount, 'field': field, 'source': 'S', 'date': date(2024, 2, 3)}
         if kind == 'datetime':
             from datetime import datetime
@@ -299,6 +302,8 @@ def immutability(i, kind='date'):
         tags0 = list(txn['tags']) if 'tags' in txn else None
         txn_items = list(txn.items())
         row_items = [list(r.items()) for r in rows['orders']]
+        extras_rows = list(rows['extras'])
+        extras_items = [list(r.items()) for r in extras_rows]
         for _ in range(2):
             try:
                 expr_parser.evaluate_transaction(src, txn, data_sources=rows)
@@ -318,6 +323,7 @@ def immutability(i, kind='date'):
         ok = ok and len(txn) == len(txn_items) and all(txn[k] is v for k, v in txn_items) and field == {'k': 'kv'}
         ok = ok and (tags0 is None or (txn['tags'] == tags0 and txn['extra_fields'] == {'a': [1, 2]}))
         ok = ok and len(rows['orders']) == 2 and all(len(r) == len(it) and all(r[k] is v for k, v in it) for r, it in zip(rows['orders'], row_items))
+        ok = ok and len(rows) == 2 and len(rows['extras']) == 1 and rows['extras'][0] is extras_rows[0] and all(extras_rows[0][k] is v for k, v in extras_items[0])
         return post(ok)
     return ob
 
